@@ -325,7 +325,7 @@ impl DOPRI5 {
             evals.ode += 6;
 
             // Prepare last segment of dense output before recalculating k4
-            event = xout.map_or(false, |xo| xo <= xph);
+            event = xout.map_or(false, |xo| (xph - xo) * posneg >= 0.0);
             if self.dense_output || event {
                 for i in 0..n {
                     cont[4 * n + i] = h
